@@ -503,8 +503,51 @@ func runC20(c *Ctx) {
 					bad, wit = f.PosOf(st)+": a worker entry is installed on a path on which the name was present and the existing entry's running flag was not read as false: the goroutine of the earlier worker can still run its clean-up, which deletes the entry by name - the new worker is then unknown to the shutdown (never cancelled, never waited for)", w
 				}
 			}
+			// the alternative that makes any replacement safe: the clean-up removes an entry only after it
+			// found, under the lock, that the name still maps to the very worker that finished (an
+			// identity comparison of the map entry with a parameter of the clean-up)
 			if bad != "" {
-				r.Fail("reg/replaces-only-cleaned-up-worker", key, p.posStr(fd.Pos()), bad, wit...)
+				if cfd := p.FuncDecl(pkg, "OrderedDaemon", "cleanupWorker"); cfd != nil && cfd.Body != nil {
+					cf := newFuncCFG(p, info, cfd.Body, pkg+".OrderedDaemon.cleanupWorker")
+					params := map[types.Object]bool{}
+					for _, fl := range cfd.Type.Params.List {
+						for _, nm := range fl.Names {
+							if _, isPtr := info.TypeOf(nm).Underlying().(*types.Pointer); isPtr {
+								params[info.Defs[nm]] = true
+							}
+						}
+					}
+					var own []Edge
+					cf.forEachEdgeFact(func(e Edge, b *cfg.Block, ft fact) {
+						be, ok := ast.Unparen(ft.Atom).(*ast.BinaryExpr)
+						if !ok || (be.Op != token.EQL && be.Op != token.NEQ) {
+							return
+						}
+						same := (be.Op == token.EQL) == ft.Pol
+						for _, pair := range [][2]ast.Expr{{be.X, be.Y}, {be.Y, be.X}} {
+							if isWorkersIndex(pair[0]) && params[objOfIdent(info, pair[1])] && same {
+								own = append(own, e)
+							}
+						}
+					})
+					dels := cf.Find(func(n ast.Node) bool {
+						c, ok := n.(*ast.CallExpr)
+						return ok && rawKey(c.Fun) == "delete" && len(c.Args) == 2 && strings.HasSuffix(rawKey(c.Args[0]), ".workers")
+					})
+					okOwn := len(own) > 0 && len(dels) > 0
+					for _, dp := range dels {
+						if _, only := cf.OnlyThroughEdges(dp, own); !only {
+							okOwn = false
+						}
+					}
+					if okOwn {
+						bad = ""
+						r.Pass("reg/replaces-only-cleaned-up-worker", key, p.posStr(fd.Pos()), "the clean-up removes the name only while it still maps to the worker that finished (identity test under the lock), so a replaced entry is never removed by a stale clean-up")
+					}
+				}
+				if bad != "" {
+					r.Fail("reg/replaces-only-cleaned-up-worker", key, p.posStr(fd.Pos()), bad, wit...)
+				}
 			} else {
 				r.Pass("reg/replaces-only-cleaned-up-worker", key, p.posStr(fd.Pos()), fmt.Sprintf("%d store(s) into the workers map, each only on an edge where the name is absent or the existing entry's running flag is false", len(stores)))
 			}
